@@ -1,0 +1,52 @@
+//go:build verif && linux
+
+package tun
+
+// Exports for the verification harness (build tag verif only).  Add-only.
+
+type VerifConst struct {
+	Name string
+	Val  uint64
+}
+
+func VerifConstants() []VerifConst {
+	return []VerifConst{
+		{"virtioNetHdrLen", uint64(virtioNetHdrLen)},
+		{"tcpFlagsOffset", tcpFlagsOffset},
+		{"tcpFlagFIN", uint64(tcpFlagFIN)},
+		{"tcpFlagPSH", uint64(tcpFlagPSH)},
+		{"tcpFlagACK", uint64(tcpFlagACK)},
+		{"udphLen", udphLen},
+		{"maxUint16", maxUint16},
+		{"ipv4SrcAddrOffset", ipv4SrcAddrOffset},
+		{"ipv6SrcAddrOffset", ipv6SrcAddrOffset},
+		{"ipv4FlagMoreFragments", uint64(ipv4FlagMoreFragments)},
+	}
+}
+
+// VerifHandleGRO runs handleGRO with fresh tables and returns toWrite.
+func VerifHandleGRO(bufs [][]byte, offset int, canUDPGRO bool) ([]int, error) {
+	toWrite := make([]int, 0, len(bufs))
+	err := handleGRO(bufs, offset, newTCPGROTable(), newUDPGROTable(), canUDPGRO, &toWrite)
+	return toWrite, err
+}
+
+// VerifHandleVirtioRead exposes handleVirtioRead.
+func VerifHandleVirtioRead(in []byte, bufs [][]byte, sizes []int, offset int) (int, error) {
+	return handleVirtioRead(in, bufs, sizes, offset)
+}
+
+// VerifChecksum exposes checksum.
+func VerifChecksum(b []byte, initial uint64) uint16 {
+	return checksum(b, initial)
+}
+
+// VerifChecksumNoFold exposes checksumNoFold.
+func VerifChecksumNoFold(b []byte, initial uint64) uint64 {
+	return checksumNoFold(b, initial)
+}
+
+// VerifPseudoHeaderChecksumNoFold exposes pseudoHeaderChecksumNoFold.
+func VerifPseudoHeaderChecksumNoFold(protocol uint8, srcAddr, dstAddr []byte, totalLen uint16) uint64 {
+	return pseudoHeaderChecksumNoFold(protocol, srcAddr, dstAddr, totalLen)
+}
